@@ -466,3 +466,14 @@ func vBreakLineOrphansWidows() (int, []string) {
 
 //@ bounded vBreakLineOrphansWidows breakLine on a non-empty page for orphans, widows in 1..4 and 0..7 lines already placed (the overflowing line is the last one), against the orphans/widows rule
 //@   props C12
+
+// CSS 2.1 §16.6.1 (white-space processing): collapsible spaces at the beginning of a line are removed. In a
+// text box with collapsing white space every leading space is skipped (and only spaces); when the line
+// resumes exactly at the end of a child, the NEXT sibling is scanned from its start in the same way.
+//@ func skipFirstWhitespace
+//@   props C11
+//@   modifies anything
+//@   unclaimed call-*-pre* "box accessors on a box under layout"
+//@   loop 1 invariant forall(k, old(index), index, text[k] == ' ')
+//@   loop 1 exit[all-leading-spaces] index >= length || text[index] != ' '
+//@   call skipFirstWhitespace#2 assert[next-sibling-scanned-from-its-start] cont && arg0 == children[index] && arg1 == nil
